@@ -452,3 +452,222 @@ Section VC.
     destruct (mem_tid _ _); [vcauto|]. destruct (_ && _); vcauto.
   Qed.
 End VC.
+
+(* ---- the invariant ------------------------------------------------------------------------------------ *)
+Section MAIN.
+  Variable progs : tid -> list op.
+
+  (* what vcpu_fini leaves behind: nothing but the (now destroyed) main thread and idler — no sleeper, no thread in
+     the standby queue, no pending switch, at most two ring members with the main thread v at the head *)
+  Definition clean (s : state) (v : nat) : Prop :=
+    v_sleepq (s_vc s v) = [] /\ v_standby (s_vc s v) = [] /\ v_pend (s_vc s v) = PNone /\
+    length (v_runq (s_vc s v)) <= 2 /\ hd_error (v_runq (s_vc s v)) = Some v.
+  Definition FiniOK (s : state) : Prop := forall v, offline progs s v = true -> clean s v.
+
+  Lemma clean_vcq : forall s s' v, vcq v s s' -> clean s v -> clean s' v.
+  Proof. unfold vcq, clean. intros s s' v ->. auto. Qed.
+  Lemma offline_pcq : forall s s' v, pcq s s' -> offline progs s' v = offline progs s v.
+  Proof.
+    intros s s' v [A B]. unfold offline, getth. rewrite A. destruct (Nat.ltb v (s_nv s)) eqn:E; [|reflexivity].
+    apply Nat.ltb_lt in E. rewrite (B v E). reflexivity.
+  Qed.
+  Lemma offline_pcx : forall c s s' v, pcx c s s' -> v <> c -> offline progs s' v = offline progs s v.
+  Proof.
+    intros c s s' v [A B] N. unfold offline, getth. rewrite A. destruct (Nat.ltb v (s_nv s)) eqn:E; [|reflexivity].
+    apply Nat.ltb_lt in E. rewrite (B v E N). reflexivity.
+  Qed.
+  Lemma existsb_firstn_S : forall (f : op -> bool) l n o, nth_error l n = Some o ->
+    existsb f (firstn (S n) l) = existsb f (firstn n l) || f o.
+  Proof.
+    intros f l. induction l as [|a l IH]; intros n o H; destruct n; cbn in *; try discriminate.
+    - inversion H; subst. now rewrite orb_false_r.
+    - rewrite (IH n o H). now rewrite orb_assoc.
+  Qed.
+  Lemma wait_cond_false : forall s v, wait_cond s v = false ->
+    v_sleepq (s_vc s v) = [] /\ v_standby (s_vc s v) = [] /\ length (v_runq (s_vc s v)) <= 2.
+  Proof.
+    intros s v. unfold wait_cond, getvc. intro H.
+    apply orb_false_iff in H. destruct H as [H H3]. apply orb_false_iff in H. destruct H as [H1 H2].
+    apply negb_false_iff in H1, H2, H3. apply Nat.leb_le in H1.
+    destruct (v_sleepq _); [|discriminate]. destruct (v_standby _); [|discriminate]. auto.
+  Qed.
+
+  Lemma fini_exec_op : forall s w c o v rest,
+    offline progs s v = false -> offline progs (exec_op progs s w c o) v = true ->
+    nth_error (progs c) (th_pc (s_th s c)) = Some o ->
+    v_pend (s_vc s w) = PNone -> v_runq (s_vc s w) = c :: rest ->
+    clean (exec_op progs s w c o) v.
+  Proof.
+    intros s w c o v rest Off Off' No Pn Hq.
+    destruct (Nat.eq_dec v c) as [->|N].
+    2:{ rewrite (offline_pcx c _ _ v (pcx_exec_op progs s w c o) N) in Off'. congruence. }
+    pose proof (pcx_exec_op progs s w c o) as [Env _].
+    assert (Hc : c < s_nv s).
+    { unfold offline in Off'. apply andb_true_iff in Off'. destruct Off' as [L _]. apply Nat.ltb_lt in L. lia. }
+    destruct (selfpc_exec_op progs s w c o Hc) as [Same|[Inc Fin]].
+    - unfold offline, getth in *. rewrite Env, Same in Off'. congruence.
+    - assert (Eo : o = OFini).
+      { unfold offline, getth in *. rewrite Env, Inc in Off'. rewrite (existsb_firstn_S _ _ _ _ No) in Off'.
+        destruct (Nat.ltb c (s_nv s)); cbn [andb] in *; [|discriminate]. rewrite Off in Off'. cbn in Off'.
+        destruct o; try discriminate. reflexivity. }
+      destruct (Fin Eo) as (Ecw & Wc & Evc). subst w.
+      destruct (wait_cond_false s c Wc) as (A & B & C).
+      unfold clean. rewrite Evc. repeat split; auto. rewrite Hq. reflexivity.
+  Qed.
+
+  Lemma finiok_step_vcpu : forall s w v, Inv1 s -> offline progs s v = false -> offline progs (step_vcpu progs s w) v = true ->
+    clean (step_vcpu progs s w) v.
+  Proof.
+    intros s w v I Off. unfold step_vcpu, getvc, getth. cbv zeta.
+    destruct (no_pending (v_pend (s_vc s w))) eqn:Np; cbn [negb].
+    2:{ intro Off'. rewrite (offline_pcq _ _ v (pcq_exec_pend s w)) in Off'. congruence. }
+    assert (Pn : v_pend (s_vc s w) = PNone) by (destruct (v_pend (s_vc s w)); try discriminate; reflexivity).
+    destruct (v_runq (s_vc s w)) as [|c rest] eqn:Hq.
+    { intro Off'. rewrite (offline_pcq s _ v) in Off'; [congruence|]. pcauto. }
+    assert (St : forall s0, s0 = stuck s -> offline progs s0 v = true -> clean s0 v).
+    { intros s0 -> Off'. rewrite (offline_pcq s _ v) in Off'; [congruence|]. pcauto. }
+    destruct (th_state (s_th s c)); try (apply St; reflexivity).
+    destruct (th_kind (s_th s c)).
+    - destruct (nth_error _ _) as [o|] eqn:No; [intro Off'; eapply fini_exec_op; eauto|].
+      destruct (th_k (s_th s c)).
+      + destruct (lock_free _); intro Off'; [|congruence].
+        rewrite (offline_pcq s _ v) in Off'; [congruence|]. eapply pcq_trans; [|apply pcq_sleep]. pcauto.
+      + pose proof (pcq_sen s c) as X. destruct (set_error_number s c) as [[s1 r] e]. cbn in X. intro Off'.
+        rewrite (offline_pcq s _ v) in Off'; [congruence|]. pcstep. exact X.
+    - destruct rest; intro Off'; [congruence|]. rewrite (offline_pcq _ _ v (pcq_yield s w true DNone)) in Off'. congruence.
+    - destruct (nth_error _ _) as [o|] eqn:No; [intro Off'; eapply fini_exec_op; eauto|].
+      destruct (do_die s w _) as [s1|] eqn:D; intro Off'; [|congruence].
+      rewrite (offline_pcq _ _ v (pcq_die _ _ _ _ D)) in Off'. congruence.
+  Qed.
+
+  Lemma finiok_step : forall s l, Inv1 s -> FiniOK s -> FiniOK (step progs s l).
+  Proof.
+    intros s l I F v. unfold step.
+    destruct (s_stuck s); [apply F|]. destruct (frozen progs s l) eqn:Fr; [apply F|].
+    destruct (offline progs s v) eqn:Off.
+    - (* v is offline already: only other vCPUs act; they do not touch v *)
+      intros _. pose proof (F v Off) as C. destruct C as (Q & C').
+      assert (C : clean s v) by (split; auto). clear C'.
+      destruct l as [w|w|w|w u t|d]; cbn [frozen] in Fr.
+      + assert (Nw : w <> v) by (intro; subst; congruence).
+        destruct (Nat.ltb _ _); [|exact C]. destruct (pend_to_offline progs s w) eqn:Po.
+        * eapply clean_vcq; [apply vcq_stuck|exact C].
+        * eapply clean_vcq; [apply vcq_step_vcpu; eauto|exact C].
+      + assert (Nw : w <> v) by (intro; subst; congruence).
+        destruct (_ && _); [|exact C]. eapply clean_vcq; [apply vcq_drain_list; auto|exact C].
+      + assert (Nw : w <> v) by (intro; subst; congruence).
+        destruct (_ && _); [|exact C]. eapply clean_vcq; [apply vcq_resume; auto|exact C].
+      + apply orb_false_iff in Fr. destruct Fr as [F1 F2].
+        assert (Nw : w <> v) by (intro; subst; congruence). assert (Nu : u <> v) by (intro; subst; congruence).
+        destruct (_ && _); [|exact C]. eapply clean_vcq; [apply vcq_steal; auto|exact C].
+      + destruct (Z.leb _ _); exact C.
+    - (* v goes offline in this very step: its main thread returns from the last wait_all test *)
+      destruct l as [w|w|w|w u t|d].
+      + destruct (Nat.ltb _ _); [|congruence]. destruct (pend_to_offline progs s w).
+        * intro Off'. rewrite (offline_pcq s _ v) in Off'; [congruence|]. pcauto.
+        * now apply finiok_step_vcpu.
+      + destruct (_ && _); [|congruence]. intro Off'. unfold do_drain in Off'.
+        rewrite (offline_pcq _ _ v (pcq_drain_list _ s w)) in Off'. congruence.
+      + destruct (_ && _); [|congruence]. intro Off'. rewrite (offline_pcq _ _ v (pcq_resume s w)) in Off'. congruence.
+      + destruct (_ && _); [|congruence]. intro Off'. rewrite (offline_pcq _ _ v (pcq_steal s w u t)) in Off'. congruence.
+      + destruct (Z.leb _ _); [|congruence]. intro Off'. rewrite (offline_pcq s _ v) in Off'; [congruence|].
+        apply pcq_same; reflexivity.
+  Qed.
+
+  Lemma finiok_run : forall ls s, Inv1 s -> FiniOK s -> FiniOK (run progs s ls).
+  Proof.
+    induction ls as [|l r IH]; cbn; intros s I F; auto. apply IH; [now apply inv1_step|now apply finiok_step].
+  Qed.
+
+  Lemma finiok_init : forall nv n flags t0, FiniOK (init_state nv n flags t0).
+  Proof.
+    intros nv n flags t0 v. unfold offline, init_state, getth. cbn [s_th s_nv]. unfold init_thread.
+    destruct (Nat.ltb v nv); cbn; discriminate.
+  Qed.
+
+  (* fini_loses_nothing *)
+  Lemma fini_loses_nothing_proof : forall nv n flags t0 s v, nv <= n -> reachable progs nv n flags t0 s ->
+    offline progs s v = true ->
+    clean s v /\
+    (* ... so every thread that is live and belongs to v is one of the (at most two) members of v's run queue:
+       the main thread that ran vcpu_fini and the idler it joined *)
+    (forall t, live (s_th s t) = true -> th_vcpu (s_th s t) = v -> In t (v_runq (s_vc s v))) /\
+    (* ... and no thread is asleep or waiting in a standby queue there *)
+    (forall t, th_vcpu (s_th s t) = v -> th_state (s_th s t) <> SLEEPING /\ th_state (s_th s t) <> STANDBY \/ In t (v_runq (s_vc s v))).
+  Proof.
+    intros nv n flags t0 s v Hn [ls ->] Off.
+    pose proof (inv1_run progs ls _ (inv1_init nv n flags t0 Hn)) as I.
+    pose proof (finiok_run ls _ (inv1_init nv n flags t0 Hn) (finiok_init nv n flags t0) v Off) as C.
+    set (s := run progs (init_state nv n flags t0) ls) in *.
+    destruct C as (Q & B & P & L & H).
+    assert (K : forall t, live (s_th s t) = true -> th_vcpu (s_th s t) = v -> In t (v_runq (s_vc s v))).
+    { intros t Lv Ev. generalize (i_placed _ I t v). unfold placed. rewrite Lv, Ev, Nat.eqb_refl. cbn [andb].
+      rewrite Q, B, !cnt_nil. unfold place_ok. intro PO.
+      assert (cnt t (v_runq (s_vc s v)) >= 1).
+      { destruct (th_state (s_th s t)), (th_insleep (s_th s t)); try tauto; lia. }
+      unfold cnt in H0. apply (count_occ_In Nat.eq_dec). lia. }
+    split; [repeat split; auto|]. split; [exact K|].
+    intros t Ev. destruct (th_state (s_th s t)) eqn:St; try (left; split; discriminate); right; apply K; auto; unfold live; rewrite St; reflexivity.
+  Qed.
+End MAIN.
+
+(* non-vacuity: the scenario of seeded change C05_2 — vCPU 1 creates thread 2 and migrates it into vCPU 0's standby queue,
+   then vCPU 0's main thread runs vcpu_fini: wait_all yields until the idler has drained the standby queue and thread 2
+   has run to completion; only then vCPU 0 goes offline, clean. *)
+Definition c052_progs (t : tid) : list op :=
+  match t with
+  | 0 => [OFini]
+  | 1 => [OCreate 2 false false; OMigrate 2 0; ONop]
+  | 2 => [ONop]
+  | _ => []
+  end.
+Definition c052_flags (v : nat) : bool * bool := (false, false).
+Definition c052_pre : list label := [LStep 1; LStep 1].
+Definition c052_fini : list label :=
+  [LStep 0; LStep 0; LDrain 0; LStep 0; LStep 0; LStep 0; LStep 0; LStep 0; LStep 0; LStep 0; LStep 0; LStep 0; LStep 0; LStep 0; LStep 0].
+Example c052_scenario :
+  let s1 := run c052_progs (init_state 2 3 c052_flags 1000) c052_pre in
+  let s2 := run c052_progs s1 c052_fini in
+  v_standby (s_vc s1 0) = [2] /\ th_state (s_th s1 2) = STANDBY /\ th_vcpu (s_th s1 2) = 0 /\ wait_cond s1 0 = true /\
+  offline c052_progs s1 0 = false /\
+  offline c052_progs s2 0 = true /\ th_state (s_th s2 2) = DONE /\ g_started (s_th s2 2) = 1 /\ g_finished (s_th s2 2) = 1 /\
+  s_stuck s2 = false.
+Proof. vm_compute. repeat split; reflexivity. Qed.
+
+(* ---- refuted: wait_all WITHOUT the standby-queue test (seeded change C05_2) -------------------------------
+   The variant differs from the code in one place: the loop test.  Its transition function `step_ns` is `step` except that
+   a `fini` / `waitall` block of a main thread whose loop test differs (standby queue not empty, everything else empty)
+   takes the variant's branch: wait_all returns at once. *)
+Definition wait_cond_ns (s : state) (v : nat) : bool :=
+  let vc := getvc s v in negb (Nat.leb (length (v_runq vc)) 2) || negb (is_nil (v_sleepq vc)).
+Definition at_wait_test (progs : tid -> list op) (s : state) (v : nat) : option bool :=
+  match v_pend (getvc s v), v_runq (getvc s v) with
+  | PNone, c :: _ =>
+      if Nat.eqb c v && tstate_eqb (th_state (getth s c)) RUNNING &&
+         (Nat.eqb (th_k (getth s c)) 0 || Nat.eqb (th_k (getth s c)) 3) then
+        match nth_error (progs c) (th_pc (getth s c)) with
+        | Some OFini => Some true | Some OWaitAll => Some false | _ => None
+        end
+      else None
+  | _, _ => None
+  end.
+Definition step_ns (progs : tid -> list op) (s : state) (l : label) : state :=
+  match l with
+  | LStep v =>
+      if negb (s_stuck s) && negb (frozen progs s l) && Nat.ltb v (s_nv s) && wait_cond s v && negb (wait_cond_ns s v) then
+        match at_wait_test progs s v with
+        | Some f => ret s v (if f then online_count progs s - 1 else 0)%Z 0     (* the variant's wait_all returns here *)
+        | None => step progs s l
+        end
+      else step progs s l
+  | _ => step progs s l
+  end.
+Fixpoint run_ns (progs : tid -> list op) (s : state) (ls : list label) : state :=
+  match ls with [] => s | l :: r => run_ns progs (step_ns progs s l) r end.
+
+Lemma fini_without_standby_test_refuted_proof :
+  exists ls t, let s := run_ns c052_progs (init_state 2 3 c052_flags 1000) ls in
+    s_stuck s = false /\ offline c052_progs s 0 = true /\
+    (* a live thread that never ran belongs to the finalised vCPU and sits in its standby queue: lost *)
+    live (s_th s t) = true /\ th_vcpu (s_th s t) = 0 /\ g_started (s_th s t) = 0 /\ v_standby (s_vc s 0) = [t].
+Proof. exists (c052_pre ++ [LStep 0]), 2. vm_compute. repeat split; reflexivity. Qed.
